@@ -41,23 +41,43 @@ func runReuseE2E(r *ev.Run, cov ev.Coverage) {
 	}
 	variants := []variant{{"reuse", false, false}, {"reuse-twice", false, true}, {"discard-then-use", true, false}, {"discard-then-use-twice", true, true}}
 	runs, nontrivial := 0, 0
-	for _, local := range []bool{true, false} {
+	// executors: local; a cluster of 2-proc machines; ONE 4-proc machine (a recomputed
+	// task lands on the worker that ran it before). Source programs: "map" (prog 0) and
+	// "map+reduce" (prog 3: the counting tasks have a map-side combiner, which takes a
+	// different path through the worker).
+	type cfg struct {
+		execName string
+		procs    int
+		srcProg  int
+	}
+	var cfgs []cfg
+	for _, sp := range []int{0, 3} {
+		cfgs = append(cfgs, cfg{"local", 0, sp}, cfg{"cluster", 2, sp}, cfg{"cluster-1machine", 4, sp})
+	}
+	for _, c := range cfgs {
+		local := c.procs == 0
+		_, srcRows := expected(nrows, c.srcProg)
 		for _, v := range variants {
 			for nshard := 1; nshard <= 3; nshard++ {
-				execName := "cluster"
+				execName := c.execName
+				if c.srcProg != 0 {
+					execName += "/src=" + progs[c.srcProg].name
+				}
 				var sys *vsys.System
 				var sess *exec.Session
 				if local {
-					execName = "local"
 					sess = exec.Start(exec.Local, exec.Parallelism(4))
 				} else {
-					sys = vsys.New(2)
+					sys = vsys.New(c.procs)
+					if c.procs == 4 {
+						sys.MaxMachines = 1
+					}
 					sess = exec.Start(exec.Bigmachine(sys), exec.Parallelism(4))
 				}
 				fail := func(err error, what string) {
 					ev.Fatal("reuse e2e %s/%s shards=%d: %s: %v", execName, v.name, nshard, what, err)
 				}
-				res, err := sess.Run(ctx, fE2E, nshard, nrows, 0) // program "map": counter 0 once per row
+				res, err := sess.Run(ctx, fE2E, nshard, nrows, c.srcProg) // counter 0 once per input row
 				if err != nil {
 					fail(err, "source run")
 				}
@@ -73,7 +93,7 @@ func runReuseE2E(r *ev.Run, cov ev.Coverage) {
 					if err != nil {
 						fail(err, "consumer run")
 					}
-					if n, err := scanCount(ctx, res2); err != nil || n != nrows {
+					if n, err := scanCount(ctx, res2); err != nil || n != srcRows {
 						fail(err, fmt.Sprintf("consumer scan delivered %d rows", n))
 					}
 					if !local && len(sys.Killed()) > 0 {
@@ -90,9 +110,9 @@ func runReuseE2E(r *ev.Run, cov ev.Coverage) {
 						r.Violate(fmt.Sprintf("C20/e2e-reuse/%s/%s/source-counter-not-once-per-task", execName, v.name),
 							fmt.Sprintf("%s executor, history %s (%d shards, %d rows), use #%d: the result's scope reports c0 = %d for the source tasks, whose (latest) computation performed %d increments", execName, v.name, nshard, nrows, u+1, got0, nrows), detail)
 					}
-					if got1 != nrows {
+					if got1 != int64(srcRows) {
 						r.Violate(fmt.Sprintf("C20/e2e-reuse/%s/%s/consumer-counter-wrong", execName, v.name),
-							fmt.Sprintf("%s executor, history %s (%d shards, %d rows), use #%d: c1 = %d, the consumer's functions performed %d increments", execName, v.name, nshard, nrows, u+1, got1, nrows), detail)
+							fmt.Sprintf("%s executor, history %s (%d shards, %d rows), use #%d: c1 = %d, the consumer's functions performed %d increments", execName, v.name, nshard, nrows, u+1, got1, srcRows), detail)
 					}
 					if runs == 1 {
 						r.Sample(detail)
@@ -103,5 +123,5 @@ func runReuseE2E(r *ev.Run, cov ev.Coverage) {
 		}
 	}
 	cov["e2e_reuse_runs"] = runs
-	cov["e2e_reuse_space"] = "histories {reuse, reuse twice, discard then use, discard then use twice} x shards 1..3 x {local, cluster}"
+	cov["e2e_reuse_space"] = "histories {reuse, reuse twice, discard then use, discard then use twice} x shards 1..3 x {local, cluster of 2-proc machines, one 4-proc machine} x source program {map, map+reduce (map-side combiner tasks)}"
 }
